@@ -223,9 +223,20 @@ struct CaseState {
     forgotten: HashSet<usize>,
 }
 
+/// print what the case produced so far (a later crash inside the real crate must not swallow it)
+fn flush_out(out: &mut String) {
+    use std::io::Write as _;
+    let so = std::io::stdout();
+    let mut l = so.lock();
+    let _ = l.write_all(out.as_bytes());
+    let _ = l.flush();
+    out.clear();
+}
+
 fn oracle(out: &mut String, t: &mut Totals, msg: &str) {
     t.oracle_lines += 1;
     let _ = writeln!(out, "oracle {PROP} {msg}");
+    flush_out(out);
 }
 
 /// print the ticket-ordered history of one round; evaluates the log-based oracles
@@ -319,6 +330,60 @@ fn linearise(evs: &mut Vec<Ev>, cs: &mut CaseState, out: &mut String, t: &mut To
         t.contended += 1;
     }
     t.max_peak = t.max_peak.max(cs.peak);
+}
+
+// ------------------------------------------------------------------------------------------------
+// a crew of persistent raw `std::thread`s that run borrowed closures (a scoped thread pool).  Spawning
+// threads per round costs milliseconds each on the verification machine; the crew is spawned once.
+
+type Job = Box<dyn FnOnce() + Send + 'static>;
+
+struct Crew {
+    txs: Vec<std::sync::mpsc::Sender<Job>>,
+}
+
+impl Crew {
+    fn new(n: usize) -> Crew {
+        let mut txs = Vec::new();
+        for i in 0..n {
+            let (tx, rx) = std::sync::mpsc::channel::<Job>();
+            std::thread::Builder::new()
+                .name(format!("crew-{i}"))
+                .spawn(move || {
+                    for job in rx {
+                        job();
+                    }
+                })
+                .expect("spawn");
+            txs.push(tx);
+        }
+        Crew { txs }
+    }
+
+    /// runs job `i` on crew thread `i`, all at the same time; returns when ALL of them have finished
+    /// (that is what makes lending them `'a` data sound)
+    fn scoped<'a, R: Send + 'a>(&self, jobs: Vec<Box<dyn FnOnce() -> R + Send + 'a>>) -> Vec<std::thread::Result<R>> {
+        let n = jobs.len();
+        assert!(n <= self.txs.len());
+        let slots: Vec<Mutex<Option<std::thread::Result<R>>>> = (0..n).map(|_| Mutex::new(None)).collect();
+        let (dtx, drx) = std::sync::mpsc::channel::<()>();
+        for (i, job) in jobs.into_iter().enumerate() {
+            let slot = &slots[i];
+            let dtx = dtx.clone();
+            let f: Box<dyn FnOnce() + Send + '_> = Box::new(move || {
+                let r = catch_unwind(AssertUnwindSafe(job));
+                *slot.lock().unwrap_or_else(|e| e.into_inner()) = Some(r);
+                let _ = dtx.send(());
+            });
+            // SAFETY: this function does not return before every job has reported completion
+            let f: Job = unsafe { std::mem::transmute::<Box<dyn FnOnce() + Send + '_>, Job>(f) };
+            self.txs[i].send(f).expect("crew thread died");
+        }
+        for _ in 0..n {
+            drx.recv().expect("crew thread died");
+        }
+        slots.into_iter().map(|m| m.into_inner().unwrap_or_else(|e| e.into_inner()).expect("job result")).collect()
+    }
 }
 
 // ------------------------------------------------------------------------------------------------
@@ -565,7 +630,30 @@ where
     w
 }
 
+fn run_threads<'s, 'p: 's, A: PoolBase, S: BumpAllocatorSettings>(crew: &Crew, sh: &'s Shared<'p, A, S>, seeds: &[u64], steps: usize) -> Vec<WorkerOut<'p>>
+where
+    A: BaseAllocator<S::GuaranteedAllocated>,
+{
+    let jobs: Vec<Box<dyn FnOnce() -> WorkerOut<'p> + Send + 's>> = seeds
+        .iter()
+        .enumerate()
+        .map(|(i, s)| {
+            let s = *s;
+            Box::new(move || worker(sh, i, Rng::new(s), steps, true)) as Box<dyn FnOnce() -> WorkerOut<'p> + Send + 's>
+        })
+        .collect();
+    let mut outs = Vec::new();
+    for r in crew.scoped(jobs) {
+        match r {
+            Ok(o) => outs.push(o),
+            Err(p) => std::panic::resume_unwind(p),
+        }
+    }
+    outs
+}
+
 struct CaseCtx<'t> {
+    crew: &'t Crew,
     out: &'t mut String,
     t: &'t mut Totals,
 }
@@ -619,19 +707,7 @@ where
             let seeds: Vec<u64> = (0..threads).map(|_| rng.next()).collect();
             let mut outs: Vec<WorkerOut<'_>> = Vec::new();
             if threaded {
-                std::thread::scope(|sc| {
-                    let hs: Vec<_> = seeds.iter().enumerate().map(|(i, s)| {
-                        let shr = &sh;
-                        let s = *s;
-                        sc.spawn(move || worker(shr, i, Rng::new(s), steps, true))
-                    }).collect();
-                    for h in hs {
-                        match h.join() {
-                            Ok(o) => outs.push(o),
-                            Err(p) => std::panic::resume_unwind(p),
-                        }
-                    }
-                });
+                outs = run_threads(cx.crew, &sh, &seeds, steps);
             } else {
                 outs.push(worker(&sh, 0, Rng::new(seeds[0]), steps, false));
             }
@@ -720,6 +796,7 @@ where
         let _ = writeln!(cx.out, "q contents => contents {}", cont.join(" "));
         let _ = writeln!(cx.out, "q live => live {} created {}", cs.leaked.len(), cs.n_created);
 
+        flush_out(cx.out);
         // ---- what happens between rounds
         let last = round + 1 == rounds;
         let action = if last { 3 } else { rng.below(3) };
@@ -818,6 +895,7 @@ fn main() {
     let mut per_cfg = [0u64; 6];
     println!("# pool cases={cases} mode={mode} seed={}", seed());
     std::panic::set_hook(Box::new(|_| {}));
+    let crew = Crew::new(16);
     for case in 0..cases {
         let case_seed = rng.next();
         let threaded = match mode.as_str() {
@@ -828,12 +906,12 @@ fn main() {
         let which = case % 6;
         per_cfg[which as usize] += 1;
         let mut out = String::new();
+        println!("# case {case} seed={case_seed} threaded={threaded}");
         let res = {
-            let mut cx = CaseCtx { out: &mut out, t: &mut t };
+            let mut cx = CaseCtx { crew: &crew, out: &mut out, t: &mut t };
             catch_unwind(AssertUnwindSafe(|| dispatch(which, case_seed, threaded, &mut cx)))
         };
         FAIL_ARMED.with(|f| f.set(false));
-        println!("# case {case} seed={case_seed} threaded={threaded}");
         print!("{out}");
         if let Err(p) = res {
             let msg = p.downcast_ref::<String>().cloned().or_else(|| p.downcast_ref::<&str>().map(|s| s.to_string())).unwrap_or_else(|| "?".into());
